@@ -41,7 +41,9 @@ DESTS = {'own': OWN, 'other': (0x7a70 << 32) | 2, 'otherm': (0x1234 << 32) | 1,
 SRC = (0x7a70 << 32) | 0x11223344
 SUBS = [0, 1, 2, 0x200, 0xffff]
 GET, SET, DISC = 0x20, 0x30, 0x10
-KINDS = {'dummy': ['DummyResponder'], 'dimmer': ['DimmerRootDevice', 'DimmerSubDevice'],
+_DIM = ['DimmerRootDevice', 'DimmerSubDevice']
+# "dimmer" has 2 sub-devices, "dimmerN" has N
+KINDS = {'dummy': ['DummyResponder'], 'dimmer': _DIM, 'dimmer0': _DIM, 'dimmer1': _DIM, 'dimmer4': _DIM, 'dimmer8': _DIM,
          'moving': ['MovingLightResponder'], 'sensor': ['SensorResponder'],
          'acktimer': ['AckTimerResponder'], 'advdimmer': ['AdvancedDimmerResponder'],
          'network': ['NetworkResponder']}
@@ -96,7 +98,7 @@ def rdata(rng, n, small=True):
 def dimmer_safe(kind, dname, sub, cc, pid, data):
     """random dimmer sweeps do not send a valid-length SET PERSONALITY / START_ADDRESS to all
     sub-devices (the mixed-verdict fan-out is exercised by its own, flagged, class)"""
-    if kind == 'dimmer' and dname == 'own' and sub == 0xffff and cc == SET:
+    if kind.startswith('dimmer') and dname == 'own' and sub == 0xffff and cc == SET:
         if (pid == 0xe0 and len(data) == 1) or (pid == 0xf0 and len(data) == 2):
             return data + [0]
     return data
@@ -106,6 +108,36 @@ def avoid_known(kind, dname, sub, cc, pid, data):
     if kind == 'dummy' and pid == 0x16 and cc == GET and len(data) == 2 and 231 < data[0] * 256 + data[1] <= 4096:
         return [0, data[1] % 232]
     return data
+
+def nsub_of(kind):
+    return (int(kind[6:]) if len(kind) > 6 else 2) if kind.startswith('dimmer') else 0
+
+def subs_of(kind):
+    n = nsub_of(kind)
+    return sorted(set(SUBS + [n, n + 1])) if kind.startswith('dimmer') else SUBS
+
+def gen_block(rng, tier):
+    """DMX_BLOCK_ADDRESS on the dimmer root after personality / start-address changes on individual
+    sub-devices; bases around 512 - total footprint and around the 255 bound of the code"""
+    for n in (1, 2, 4, 8):
+        kind = 'dimmer' if n == 2 else 'dimmer%d' % n
+        for _ in range(10 if tier == 'quick' else 120):
+            seq, fps = [], [1] * n
+            for i in rng.sample(range(n), rng.randrange(0, n + 1)):
+                fps[i] = 2
+                seq.append(req(OWN, i + 1, SET, 0xe0, [2]))
+            if rng.random() < 0.4:
+                seq.append(req(OWN, rng.randrange(1, n + 1), SET, 0xf0, [1, rng.choice([0xfe, 0xff])]))
+            tot = sum(fps)
+            for _ in range(4):
+                base = max(0, rng.choice([512, 255]) - tot + rng.choice([-2, -1, 0, 1, 2, 3]))
+                base = rng.choice([base, base, base, 1, 0, 600])
+                seq.append(req(OWN, 0, SET, 0x140, [base >> 8, base & 255]))
+                seq.append(req(OWN, 0, GET, 0x140, []))
+                if rng.random() < 0.3:
+                    seq.append(req(OWN, rng.randrange(1, n + 1), SET, 0xe0, [rng.choice([1, 2])]))
+            seq.append(req(OWN, n, GET, 0xf0, []))
+            yield seq_case(rng, kind, seq)
 
 def sweep_req(rng, kind, pid, cc, sub, dname, n=None):
     if n is None:
@@ -223,17 +255,18 @@ def gen_sweeps(rng, tier):
         reqs = []
         for pid in pids + boundary:
             for cc in (GET, SET, DISC):
-                combos = [(s, 'own') for s in SUBS] + [(0, d) for d in ('other', 'otherm', 'vcast', 'vcasto', 'bcast')]
-                combos += [(rng.choice(SUBS), rng.choice(sorted(DESTS))) for _ in range(3 if quick else 12)]
+                KS = subs_of(kind)
+                combos = [(s, 'own') for s in KS] + [(0, d) for d in ('other', 'otherm', 'vcast', 'vcasto', 'bcast')]
+                combos += [(rng.choice(KS), rng.choice(sorted(DESTS))) for _ in range(3 if quick else 12)]
                 if not quick:
-                    combos += [(s, d) for s in SUBS for d in ('vcast', 'bcast', 'other')]
+                    combos += [(s, d) for s in KS for d in ('vcast', 'bcast', 'other')]
                 for sub, dn in combos:
                     for _ in range(1 if quick else 2):
                         reqs.append(sweep_req(rng, kind, pid, cc, sub, dn))
                 if pid in pids:
                     # every length boundary on the plain unicast path
                     for n in ([0, 1, 2, 3, 4, 5, 8, 9, 10, 32, 33, 231] if quick else LENS):
-                        reqs.append(sweep_req(rng, kind, pid, cc, rng.choice([0, 0, 0, 1, 0xffff] if kind == 'dimmer' else [0]), 'own', n))
+                        reqs.append(sweep_req(rng, kind, pid, cc, rng.choice([0, 0, 0, 1, nsub_of(kind), 0xffff] if kind.startswith('dimmer') else [0]), 'own', n))
         rng.shuffle(reqs)
         for ch in chunks(reqs, 48):
             yield seq_case(rng, kind, ch)
@@ -243,7 +276,7 @@ def gen_sweeps(rng, tier):
             for _ in range(40):
                 pid = rng.choice(pids)
                 cc = rng.choice([SET, SET, SET, GET])
-                sub = rng.choice([0, 0, 1, 2, 0xffff] if kind == 'dimmer' else [0, 0, 0, 0, 1, 0xffff])
+                sub = rng.choice([0, 0, 1, 2, nsub_of(kind), 0xffff] if kind.startswith('dimmer') else [0, 0, 0, 0, 1, 0xffff])
                 dn = rng.choice(['own'] * 6 + ['bcast', 'vcast', 'other'])
                 seq.append(sweep_req(rng, kind, pid, cc, sub, dn, rng.choice([0, 1, 1, 2, 2, 3, 4, 4, 5, 8, 9, 10])))
             yield seq_case(rng, kind, seq)
@@ -252,7 +285,7 @@ def gen_sweeps(rng, tier):
             allr = []
             for pid in range(65536):
                 for cc in (GET, SET, DISC):
-                    allr.append(sweep_req(rng, kind, pid, cc, rng.choice(SUBS), rng.choice(['own'] * 3 + sorted(DESTS)),
+                    allr.append(sweep_req(rng, kind, pid, cc, rng.choice(subs_of(kind)), rng.choice(['own'] * 3 + sorted(DESTS)),
                                           rng.choice([0, 0, 1, 2, 4, 231])))
             rng.shuffle(allr)
             for ch in chunks(allr, 512):
@@ -360,11 +393,20 @@ def gen_help(rng, tier):
             yield 'help 22 %s %d -' % (R([v >> 8, v & 255]), rng.choice(mcs))
         for d in ([], [1], [0, 0, 1]):
             yield 'help 22 %s %d -' % (R(d), rng.choice(mcs))
+        for nsubs in (0, 1, 2, 4, 8):
+            for _ in range(6):
+                prs = [rng.choice([1, 2]) for _ in range(nsubs)]
+                tot = sum(prs)
+                base = max(0, rng.choice([255, 255, 512]) - tot + rng.choice([-1, 0, 1, 2]))
+                base = rng.choice([base, base, base, 0, 1, 65535])
+                st = ','.join('%d,%d' % (pp, rng.choice([1, 77, 511, 512])) for pp in prs) or '-'
+                yield 'help 24 %s %s -' % (R([base >> 8, base & 255], cc=SET), st)
+            yield 'help 24 %s %s -' % (R(rdata(rng, rng.choice([0, 1, 3])), cc=SET), ','.join(['1,5'] * nsubs) or '-')
         for n in (0, 1, 2, 230, 231):
             yield 'help 23 %s %d -' % (R(rdata(rng, n, False)), rng.choice(mcs))
 
 def gen_cases(rng, tier):
-    for g in (gen_disp, gen_fan, gen_help, gen_ackt, gen_acktimer, gen_sweeps):
+    for g in (gen_disp, gen_fan, gen_help, gen_ackt, gen_acktimer, gen_block, gen_sweeps):
         for c in g(rng, tier):
             yield c
 
@@ -430,7 +472,10 @@ LEVEL_NOTE = ('Trusted: Coq kernel, extraction (ExtrOcamlBasic), OCaml/C++ glue 
               'coverage; model = code is validated by differential testing, not proved; handler conformance (hypothesis '
               'handlers_conform of c13_dispatch) is validated by the sweep only; volatile readings are excluded from snapshots; '
               'for a destination that is another unicast UID or for DISCOVERY class the checker only demands one completion and a '
-              'well-formed response if any (the property text does not say more).')
+              'well-formed response if any (the property text does not say more). DimmerRootDevice::SetDmxBlockAddress '
+              'bounds the block by DMX_MAX_SLOT_VALUE (255) instead of 512: legal bases are refused with a conformant NACK and '
+              'nothing changes, which C13 as worded allows (modelled as is, c13_block_address); dimmers are swept with 0, 1, 2, 4 '
+              'and 8 sub-devices and every snapshot covers the root and every sub-device.')
 TECHNIQUE = ('Coq proof on hand-written executable model + extracted-model/implementation differential correspondence + '
              'sweep of the real responders judged by the extracted, proved instance checker')
 DESIGN_REF = 'DESIGN.md §4 C13'
